@@ -76,7 +76,7 @@ func c07Bounded(eng *Engine, tier string, seed int64) *BoundedResult {
 	if tier == "thorough" {
 		maxNames = 3
 	}
-	out := runReplayTest(repoDir(), filepath.Join(repoDir(), "hostsfile"), fmt.Sprintf(c07TestSrc, maxNames))
+	out := runHarness(repoDir(), filepath.Join(repoDir(), "hostsfile"), fmt.Sprintf(c07TestSrc, maxNames))
 	res := &BoundedResult{
 		What:  "for every line of the enumeration that Record.UnmarshalText accepts: MarshalText succeeds and its output parses to a record with the same address and the same names (real code)",
 		Bound: fmt.Sprintf("lines of an address (7 forms incl. zoned, IPv4-mapped, invalid) followed by at most %d names (8 forms incl. upper case, punycode, invalid) with 4 kinds of separators, 3 leading and 5 trailing forms (spaces, tabs, comments)", maxNames),
